@@ -113,6 +113,22 @@ func lifeRoots(o LifeOpts) []engine.Root {
 					CompleteNth(2, 0),
 				}
 			}
+		case "R6": // one replica of 1 MB for 3600 blocks, completed; the holder then moved its funds away: a renewal to a
+			// longer period finds the provider unable to pay the collateral top-up
+			extra = func(w *world.World) []engine.SetupStep {
+				return []engine.SetupStep{
+					fixed(Tx("store", "store(setup)", StoreMsg(w, StoreP{Signer: world.O, Relayer: world.G, Gateway: world.G, DataId: world.Data1, CommitId: world.Data1, Size: 1_000_000, Replica: 1, Duration: 3600, Timeout: 100}))),
+					CompleteNth(1, 0),
+					func(w *world.World, ctx sdk.Context) engine.Op {
+						sh, _ := w.App.OrderKeeper.GetShard(ctx, 0)
+						holder := world.S1
+						if w.A(world.S2).S() == sh.Sp {
+							holder = world.S2
+						}
+						return SendOp(w, holder, world.T, w.Bal(ctx, w.A(holder).Addr).SubRaw(10), "drain(setup)")
+					},
+				}
+			}
 		default:
 			panic("unknown root " + name)
 		}
